@@ -54,6 +54,11 @@ void h_nng_aio_start(void) { nng_aio *a; nng_aio_cancelfn fn; void *arg; VP_HAVO
 void h_nng_aio_abort(void) { nng_aio *a; nng_err rv; VP_HAVOC_GHOSTS(); nng_aio_abort(a, rv); VP_CANARY(); }
 void h_nng_aio_cancel(void) { nng_aio *a; VP_HAVOC_GHOSTS(); nng_aio_cancel(a); VP_CANARY(); }
 void h_nng_aio_finish(void) { nng_aio *a; nng_err rv; VP_HAVOC_GHOSTS(); nng_aio_finish(a, rv); VP_CANARY(); }
+void h_nng_aio_stop(void) { nng_aio *a; VP_HAVOC_GHOSTS(); nng_aio_stop(a); VP_CANARY(); }
+void h_nng_sleep_aio(void) { nng_aio *a; nng_duration ms; VP_HAVOC_GHOSTS(); nng_sleep_aio(ms, a); VP_CANARY(); }
+void h_nng_aio_reset(void) { nng_aio *a; VP_HAVOC_GHOSTS(); nng_aio_reset(a); VP_CANARY(); }
+void h_nng_aio_busy(void) { nng_aio *a; VP_HAVOC_GHOSTS(); nng_aio_busy(a); VP_CANARY(); }
+void h_nng_aio_wait(void) { nng_aio *a; VP_HAVOC_GHOSTS(); nng_aio_wait(a); VP_CANARY(); }
 void h_nng_ctx_sendmsg(void) { nng_ctx c; nng_msg *m; int flags; VP_HAVOC_GHOSTS(); nng_ctx_sendmsg(c, m, flags); VP_CANARY(); }
 void h_nng_ctx_recvmsg(void) { nng_ctx c; nng_msg **mp; int flags; VP_HAVOC_GHOSTS(); nng_ctx_recvmsg(c, mp, flags); VP_CANARY(); }
 void h_nng_send(void) { nng_socket s; const void *b; size_t n; int flags; VP_HAVOC_GHOSTS(); nng_send(s, b, n, flags); VP_CANARY(); }
